@@ -224,7 +224,9 @@ class PerformedPart(object):
             n_ids = ["n{0}".format(i) for i in range(len(note_array))]
         else:
             # Check if all ids are the same
-            if np.all(note_array["id"] == note_array["id"][0]):
+            if len(note_array) > 0 and np.all(
+                note_array["id"] == note_array["id"][0]
+            ):
                 n_ids = ["n{0}".format(i) for i in range(len(note_array))]
             else:
                 n_ids = note_array["id"]
